@@ -128,6 +128,7 @@ gh0 == [mown |-> [o \in Obj |-> 0],      \* descriptor holding mutex o (user lev
         klive |-> {},                      \* keys handed out and not deleted (user view)
         kdt |-> [k \in 0..(NKeys - 1) |-> 0], \* destructor registered with the key (0 = none)
         kval |-> [d \in D |-> {}],         \* kval[d] = set of <<key, value>> with a non-NULL value
+        wcp |-> [v \in W |-> 0],          \* thread held by the peek cache of v's run queue (work-stealing API), 0 = none
         kpend |-> [d \in D |-> {}],        \* destructor calls <<destructor, value>> owed by a terminating thread
         kopt |-> [d \in D |-> {}]]         \* calls that may or may not happen: the key's deletion overlaps the termination
 CoreInit ==
@@ -174,7 +175,9 @@ QPop(w, q, n) ==
              \/ /\ pc.k = "yd0" /\ ~PopDone(pc.y) /\ pc.x # 3   \* yield: local pop not tried yet; steal_only never pops
                 /\ (pc.x = 4 => StealDone(pc.y))                    \* steal_first: steal attempted before
                 /\ th' = SetPc(t, IF n # 0 THEN P("yd1", pc.x, pc.y, n) ELSE [pc EXCEPT !.y = @ + 1])
-  /\ UNCHANGED <<cur, cb, lk, stk, freeD, freeS, flS, nD, nS, nL, anw, tg, bad, sv>>
+  \* the owner invalidates the peek cache only when it removes the last entry of its queue
+  /\ gh' = IF Len(runq[w]) = 1 THEN [gh EXCEPT !.wcp[w] = 0] ELSE gh
+  /\ UNCHANGED <<cur, cb, lk, stk, freeD, freeS, flS, nD, nS, nL, anw, tg, bad, mx, sq, ob>>
 
 \* steal attempt on victim v's queue (by an idle worker, or by a yielding thread)
 QTake(w, v, n) ==
@@ -205,7 +208,18 @@ QTakeEx(w, v, cand, n) ==
           /\ pc.k = "yd0" /\ ~StealDone(pc.y) /\ pc.x # 1
           /\ (pc.x = 2 => PopDone(pc.y)) /\ (pc.x = 4 => ~PopDone(pc.y))
           /\ th' = SetPc(t, IF n # 0 THEN P("yd1", pc.x, pc.y, n) ELSE [pc EXCEPT !.y = @ + 2])
-  /\ UNCHANGED <<cur, cb, lk, stk, freeD, freeS, flS, nD, nS, nL, anw, tg, bad, sv>>
+  /\ gh' = IF n # 0 THEN [gh EXCEPT !.wcp[v] = 0] ELSE gh           \* a successful take invalidates the peek cache
+  /\ UNCHANGED <<cur, cb, lk, stk, freeD, freeS, flS, nD, nS, nL, anw, tg, bad, mx, sq, ob>>
+
+\* work-stealing API peek: the oldest entry of v's queue as the cache holds it.  The cache is filled from the queue
+\* when it is empty; it is invalidated by a successful wsapi take and by the owner popping its last entry -- NOT by
+\* the default steal (QTake) nor when the owner pops the cached thread while newer-oldest entries remain, so the
+\* answer may be a thread that has left the queue: that is what the code does, and it is only a hint.
+QPeek(w, v, n, sz) ==
+  /\ cb[w].k = "none" /\ got[w] = 0 /\ v \in W
+  /\ IF runq[v] = <<>> THEN n = 0 /\ gh' = gh
+     ELSE LET c == IF gh.wcp[v] = 0 THEN Head(runq[v]) ELSE gh.wcp[v] IN n = c /\ gh' = [gh EXCEPT !.wcp[v] = c]
+  /\ UNCHANGED <<cur, got, cb, runq, th, lk, stk, freeD, freeS, flS, nD, nS, nL, anw, tg, bad, mx, sq, ob>>
 
 \* owner-side push: (a) create_1 callback pushes the parent, (b) parent-first create pushes the
 \* child, (c) a waker pushes a woken thread (sync primitives, stage "wk*")
